@@ -77,6 +77,14 @@ def _initialize_cylces(topology, cycles, tolerance):
             molecule.dfs=True
             nodes = (list(molecule.search_tree.edges)[0][0],
                      list(molecule.search_tree.edges)[-1][1])
+            # the residues to bring together are the two joined by the ring
+            # edge that is not part of the search tree; they only coincide
+            # with the first and last residue of the tree for a plain ring
+            if cycles:
+                tree_edges = {frozenset(edge) for edge in molecule.search_tree.edges}
+                ring = cycles[0]
+                nodes = [edge for edge in zip(ring, ring[1:] + ring[:1])
+                         if frozenset(edge) not in tree_edges][0]
             topology.distance_restraints[(mol_name, mol_idx)][nodes] = (0.0, tolerance)
 
 def _check_molecules(molecules):
